@@ -162,9 +162,10 @@ def run(tier):
     # lines of several hundred tokens (a table of small numbers: every number and every blank is a token) with one change near
     # the end: the emphasis is that one token, however long the line
     table = []
-    for i in range(12 if tier == "quick" else 120):
+    for i in range(5 if tier == "quick" else 40):
         r2 = random.Random(core.seed() * 9811 + i)
-        nums = [str(r2.randrange(10, 99)) for _ in range(r2.choice([140, 200, 330]))]
+        # (about 280 tokens: the models of the edit inference inside TLC are quadratic in that number)
+        nums = [str(r2.randrange(10, 99)) for _ in range(r2.choice([135, 142, 150]))]
         j = len(nums) - 1 - r2.randrange(8)
         nums2 = list(nums)
         nums2[j] = str(100 + r2.randrange(800))
